@@ -34,6 +34,18 @@ from .c12 import build_world, closed_ids, expand, external_delete, hinfos
 
 FAKE_FILE = hashlib.md5(b"vd-c12-absent-file").hexdigest()  # noqa: S324
 FAKE_DIR = hashlib.md5(b"vd-c12-absent-dir").hexdigest() + ".dir"  # noqa: S324
+# the directory object of a directory WITHOUT files: the listing "[]" (a real object: `dvc add` of an empty
+# directory produces it, and it is pushed / queried / indexed like every other directory object)
+EMPTY_DIR = ref.ref_tree_oid({})
+
+
+def _place_empty(pair):
+    """(trees, None | position) -> trees, with one EMPTY directory ({}) inserted at the position."""
+    trees, pos = pair
+    trees = list(trees)
+    if pos is not None:
+        trees.insert(pos % (len(trees) + 1), {})
+    return trees
 
 
 def _world():
@@ -44,7 +56,11 @@ def _world():
         warnings.simplefilter("ignore")
         tree = gen.trees(max_files=4, max_depth=2, content=content)
     return st.fixed_dictionaries({
-        "trees": st.lists(tree, min_size=2, max_size=4),
+        # 2-4 non-empty trees; in about two worlds of five additionally one EMPTY directory (a staged directory
+        # without files -> the "[]" listing object, which lists nothing) that pushes / fetches / status queries /
+        # external deletions address like any other directory
+        "trees": st.tuples(st.lists(tree, min_size=2, max_size=4),
+                           st.sampled_from([None, None, None, 0, 2])).map(_place_empty),
         "loose": st.lists(content, max_size=2),
         "remotes": st.sampled_from([["generic"], ["local"], ["generic", "generic"], ["generic", "local"],
                                     ["local", "generic"], ["local", "local"], ["generic", "local", "generic"]]),
@@ -228,6 +244,9 @@ class IndexMachine(TraceMachine):
                     shared = True
         if shared:
             self.labels.add("dirs-share-a-file")
+        if EMPTY_DIR in self.w.dir_children:
+            assert self.w.dir_children[EMPTY_DIR] == set() and self.w.bytes[EMPTY_DIR] == b"[]"
+            self.labels.add("world-has-empty-dir")
 
     def on_cleanup(self):
         for rem in self.rems:
@@ -280,6 +299,8 @@ class IndexMachine(TraceMachine):
         if not stale or not queried_dirs:
             return
         self.labels.add("stale-index-seen:" + op)
+        if EMPTY_DIR in stale:
+            self.labels.add("stale-indexed-empty-dir-seen:" + op)
         now = self.listing()
         idx = set(self.index)
         idx_dirs = {i for i in idx if i.endswith(".dir")}
@@ -462,6 +483,8 @@ class IndexMachine(TraceMachine):
         else:
             self.labels.add("push-noop")
         self.labels.add("push-" + form)
+        if EMPTY_DIR in ids:
+            self.labels.add("push-requests-empty-dir")
 
     def do_fetch(self, request, jobs, index_abort=None):
         from dvc_objects.errors import ObjectDBError, ObjectFormatError
@@ -559,6 +582,8 @@ class IndexMachine(TraceMachine):
         self.labels.add("status-" + ("shallow" if shallow else "expanded"))
         if any(i.endswith(".dir") for i in q):
             self.labels.add("status-queries-dir")
+            if EMPTY_DIR in q:
+                self.labels.add("status-queries-empty-dir")
         else:
             self.labels.add("status-files-only")
 
@@ -597,6 +622,8 @@ class IndexMachine(TraceMachine):
                 self.labels.add("deleted-" + ("dir" if oid.endswith(".dir") else "file"))
                 if oid in idx:
                     self.labels.add("deleted-indexed-" + ("dir" if oid.endswith(".dir") else "file"))
+                    if oid == EMPTY_DIR:
+                        self.labels.add("deleted-indexed-empty-dir")
 
     def do_delete_cache(self, picks):
         """File objects vanish from the cache: later closed pushes naming them fail for lack of a source
@@ -654,3 +681,7 @@ class IndexMachine(TraceMachine):
             self.labels.add("index-nonempty")
         if idx - now:
             self.labels.add("index-holds-absent-id")
+        if EMPTY_DIR in idx:
+            self.labels.add("empty-dir-indexed")
+            if EMPTY_DIR not in now:
+                self.labels.add("empty-dir-indexed-but-absent")
